@@ -41,6 +41,16 @@ CHECKS = {
             '1..20000 in one-way and alternating plans; every byte must arrive once, in order, unmodified; nothing may '
             'surface after an orderly close.',
             '4/C08', TRUSTED),
+    'C09': ('exploration',
+            'two real sanitized endpoints; credential-defect matrix built byte-by-byte with an independent X.509/SM2 '
+            'builder, keys the presenter does not own poked into the connection object; must-fail verdict on the verifier '
+            'with a positive control per cell',
+            'For each protocol and verifier role: untrusted / same-name root, expired and not-yet-valid leaf or intermediate, '
+            'issuer without basicConstraints / cA=FALSE / no keyCertSign (incl. above the first CA), end-entity as issuer, '
+            'bad certificate signatures, leaf signed by another key, issuer-name mismatch, unknown critical extension, '
+            'certificate/private-key mismatch (sign key, TLCP encryption key), untrusted TLCP encryption certificate, '
+            'missing client certificate; the verifier must not return 1 while the defect-free control completes.',
+            '4/C09', TRUSTED),
     'C10': ('fault_enumeration',
             'record-aware man-in-the-middle between two real sanitized endpoints, one enumerated fault per handshake; '
             'TLS 1.3 inner plaintext altered through an interposed tls13_record_encrypt; verdict over both return codes '
